@@ -4,7 +4,7 @@ from ..gen.checks import GenCheck, COMMON_ASSUMPTIONS
 
 ENGINE = "dgen+refsem"
 TECHNIQUE = "runtime monitoring: random well-formed designs emitted as real Transactron objects, simulated under hostile input valuations; per-cycle oracle = independent reference semantics over sampled run/data/witness signals"
-CHECK = GenCheck("C03", ("C03:",), {"p_validate": 0.8, "max_nesting": 3, "max_sb": 3, "p_vdiamond": 0.4}, scheds=("eager", "rr"), library=True, suite=True, cond=True, nontrivial_counter="cycles_locked_by_method_behind_disabled_call")
+CHECK = GenCheck("C03", ("C03:",), {"p_validate": 0.8, "max_nesting": 3, "max_sb": 3, "p_vdiamond": 0.4, "p_rel_order": 0.5}, scheds=("eager", "rr"), library=True, suite=True, cond=True, nontrivial_counter="cycles_locked_by_method_behind_disabled_call")
 shards, run_shard = CHECK.shards, CHECK.run_shard
 ASSUMPTIONS = COMMON_ASSUMPTIONS
 RULE = ("[plus the repository's own tests run with the transaction sanitizer attached to every simulator they create - two files in the quick tier, the whole suite in the thorough tier; test outcomes are not verdicts] [plus condition() designs of the cond profile, where nested branch transactions are merged with their enclosing body] [plus a realistic second workload: library components (FIFOs, stack, connectors, memories, CAM, allocators, metrics) under the hostile component driver with the design-independent transaction sanitizer vf/txsan.py attached] random well-formed designs (validation on most methods with inputs, nesting depth <= 3, schedule_before(ready_dependent) chains), both schedulers; oracle: run[T] implies own readiness, readiness of every method of the static call tree incl. calls under false conditions / enable_call=0, validation predicates of path-enabled calls, and run of every body T is ready-dependent on; non-trivial design = some cycle in which T was ready but a method behind a disabled call was not; distinct = (design shape signature, scheduler)")
